@@ -193,20 +193,19 @@ def run_model(driver, cases_path, out_path, timeout=3600, shards=16):
     if lines and lines[-1] == "":
         lines.pop()
     n = len(lines)
-    shards = max(1, min(shards, n // 200 + 1))
+    shards = max(1, min(shards, n // 50 + 1))
     procs = []
     d = os.path.dirname(out_path)
-    size = (n + shards - 1) // shards if n else 0
     for i in range(shards):
-        part = lines[i * size:(i + 1) * size]
+        part = lines[i::shards]          # round-robin, so that expensive cases spread over the shards
         ip = os.path.join(d, "model.in.%d" % i)
         op = os.path.join(d, "model.out.%d" % i)
         open(ip, "w").write("\n".join(part) + ("\n" if part else ""))
         procs.append((subprocess.Popen([driver], stdin=open(ip), stdout=open(op, "w"), stderr=subprocess.STDOUT), ip, op, len(part)))
     ok = True
-    res = []
+    res = [None] * n
     t0 = time.time()
-    for p, ip, op, cnt in procs:
+    for i, (p, ip, op, cnt) in enumerate(procs):
         try:
             p.wait(timeout=max(1, timeout - (time.time() - t0)))
         except subprocess.TimeoutExpired:
@@ -218,7 +217,7 @@ def run_model(driver, cases_path, out_path, timeout=3600, shards=16):
         if len(got) != cnt:
             ok = False
             got = (got + ["MODEL-MISSING"] * cnt)[:cnt]
-        res += got
+        res[i::shards] = got
         os.remove(ip)
         os.remove(op)
     open(out_path, "w").write("\n".join(res) + ("\n" if res else ""))
